@@ -1,5 +1,274 @@
-//! C08: input classes of known noodles defects in rANS Nx16, decided from (flags, src) alone.
+//! C08: input classes of known noodles defects in rANS Nx16, decided from (flags, src) alone
+//! (no call into noodles).  See known_findings.d/C08.json.
 #![allow(dead_code)]
-pub fn nx16_known_class(_flags: u8, _src: &[u8]) -> Option<&'static str> {
+// ---------------------------------------------------------------------------------------------
+// rANS Nx16: input classes with a known cause, decided from (flags, src) alone (no noodles call).
+//
+// Tags
+//   nx16-normalize-u32-overflow     encoder panics: count * 4096 overflows u32 (a count >= 2^20)
+//   nx16-normalize-underflow        encoder panics: excess of the max(1) bumps > scaled max frequency
+//   nx16-normalize-zero-max         DO NOT EXECUTE: the most frequent symbol is normalised to frequency 0,
+//                                   state_renormalize(s, f = 0) never terminates (unbounded Vec growth)
+//   nx16-alphabet-first-symbol-1    order-0 table whose smallest symbol is 1: spurious run-length byte
+//   nx16-o1-renorm-order            order-1 encoder emits renormalisation words chunk by chunk, the
+//                                   decoder consumes them interleaved; the streams differ
+// ---------------------------------------------------------------------------------------------
+
+const F_ORDER: u8 = 0x01;
+const F_N32: u8 = 0x04;
+const F_STRIPE: u8 = 0x08;
+const F_CAT: u8 = 0x20;
+const F_RLE: u8 = 0x40;
+const F_PACK: u8 = 0x80;
+
+/// encode/bit_pack.rs: None when the PACK flag is dropped (no symbol or more than 16 symbols)
+fn nx16_bit_pack(src: &[u8]) -> Option<Vec<u8>> {
+    let mut map = [0u8; 256];
+    let mut present = [false; 256];
+    for &b in src {
+        present[b as usize] = true;
+    }
+    let mut n = 0usize;
+    for s in 0..256 {
+        if present[s] {
+            if n == 16 {
+                return None;
+            }
+            map[s] = n as u8;
+            n += 1;
+        }
+    }
+    let per = match n {
+        0 => return None,
+        1 => return Some(Vec::new()),
+        2 => 8,
+        3..=4 => 4,
+        _ => 2,
+    };
+    let shift = 8 / per;
+    Some(src.chunks(per).map(|c| c.iter().enumerate().fold(0u8, |d, (i, &s)| d | map[s as usize] << (shift * i))).collect())
+}
+
+/// encode/rle.rs + rle/context.rs: the literal stream; None when the RLE flag is dropped
+fn nx16_rle_literals(src: &[u8]) -> Option<Vec<u8>> {
+    let mut score = [0i32; 256];
+    for w in src.windows(2) {
+        let s = &mut score[w[1] as usize];
+        *s = if w[0] == w[1] { s.saturating_add(1) } else { s.saturating_sub(1) };
+    }
+    if !score.iter().any(|&n| n > 0) {
+        return None;
+    }
+    let mut out = Vec::new();
+    let mut i = 0;
+    while i < src.len() {
+        let s = src[i];
+        out.push(s);
+        i += 1;
+        if score[s as usize] > 0 {
+            while i < src.len() && src[i] == s {
+                i += 1;
+            }
+        }
+    }
+    Some(out)
+}
+
+enum Nx16Row {
+    Fine([u32; 256]),
+    U32Overflow,
+    Underflow,
+    ZeroMax,
+}
+
+/// encode/order_0.rs normalize_frequencies, in wide arithmetic
+fn nx16_normalize(raw: &[u64; 256]) -> Nx16Row {
+    let sum: u64 = raw.iter().sum();
+    let mut out = [0u32; 256];
+    if sum == 0 {
+        return Nx16Row::Fine(out);
+    }
+    if sum > u32::MAX as u64 {
+        return Nx16Row::U32Overflow;
+    }
+    let (mut max, mut max_index) = (0, 0);
+    for (i, &f) in raw.iter().enumerate() {
+        if f >= max {
+            max = f;
+            max_index = i;
+        }
+    }
+    let mut nsum = 0u64;
+    for i in 0..256 {
+        if raw[i] > 0 {
+            if raw[i] * 4096 > u32::MAX as u64 {
+                return Nx16Row::U32Overflow;
+            }
+            let g = (raw[i] * 4096 / sum).max(1);
+            out[i] = g as u32;
+            nsum += g;
+        }
+    }
+    let m = out[max_index] as u64;
+    if nsum < 4096 {
+        out[max_index] = (m + 4096 - nsum) as u32;
+    } else if nsum > 4096 {
+        let excess = nsum - 4096;
+        if m < excess {
+            return Nx16Row::Underflow;
+        }
+        if m == excess {
+            return Nx16Row::ZeroMax;
+        }
+        out[max_index] = (m - excess) as u32;
+    }
+    Nx16Row::Fine(out)
+}
+
+fn nx16_cumulative(f: &[u32; 256]) -> [u32; 256] {
+    let mut c = [0u32; 256];
+    for i in 1..256 {
+        c[i] = c[i - 1] + f[i - 1];
+    }
+    c
+}
+
+/// one encoder step (state_renormalize then state_step, 12 bits); returns the emitted 16-bit word, if any
+fn nx16_step(s: &mut u32, f: u32, g: u32) -> Option<u16> {
+    let mut out = None;
+    // f in 1..=4096: at most one word is emitted
+    if *s as u64 >= (1u64 << 19) * f as u64 {
+        out = Some(*s as u16);
+        *s >>= 16;
+    }
+    *s = ((*s / f) << 12) + *s % f + g;
+    out
+}
+
+fn nx16_order0_class(data: &[u8]) -> Option<&'static str> {
+    let mut raw = [0u64; 256];
+    for &b in data {
+        raw[b as usize] += 1;
+    }
+    match nx16_normalize(&raw) {
+        Nx16Row::U32Overflow => return Some("nx16-normalize-u32-overflow"),
+        Nx16Row::Underflow => return Some("nx16-normalize-underflow"),
+        Nx16Row::ZeroMax => return Some("nx16-normalize-zero-max"),
+        Nx16Row::Fine(_) => {}
+    }
+    // write_alphabet starts with prev_sym = 0 although symbol 0 was not written
+    if raw[0] == 0 && raw[1] > 0 {
+        return Some("nx16-alphabet-first-symbol-1");
+    }
     None
+}
+
+fn nx16_order1_class(data: &[u8], n: usize) -> Option<&'static str> {
+    let q = data.len() / n;
+    // build_frequencies: chunk starts in context 0, every adjacent pair of the whole input
+    let mut raw = vec![0u32; 256 * 256];
+    let mut used = [false; 256];
+    for j in 0..n {
+        raw[data[j * q] as usize] += 1;
+        used[0] = true;
+    }
+    for w in data.windows(2) {
+        raw[w[0] as usize * 256 + w[1] as usize] += 1;
+        used[w[0] as usize] = true;
+    }
+    // rows are normalised in order; the first row that panics decides
+    let mut tables: Vec<Option<Box<([u32; 256], [u32; 256])>>> = (0..256).map(|_| None).collect();
+    let mut zero_max = false;
+    for r in 0..256 {
+        if !used[r] {
+            continue;
+        }
+        let mut row = [0u64; 256];
+        for c in 0..256 {
+            row[c] = raw[r * 256 + c] as u64;
+        }
+        match nx16_normalize(&row) {
+            Nx16Row::U32Overflow => return Some("nx16-normalize-u32-overflow"),
+            Nx16Row::Underflow => return Some("nx16-normalize-underflow"),
+            Nx16Row::ZeroMax => zero_max = true,
+            Nx16Row::Fine(f) => tables[r] = Some(Box::new((f, nx16_cumulative(&f)))),
+        }
+    }
+    if zero_max {
+        return Some("nx16-normalize-zero-max");
+    }
+    let fg = |a: u8, b: u8| {
+        let t = tables[a as usize].as_ref().unwrap();
+        (t.0[b as usize], t.1[b as usize])
+    };
+    // words emitted while encoding positions q-1 ..= 1 of each chunk, per state, in emission order
+    // (the remainder, encoded before, and position 0, encoded after, are ordered correctly)
+    let mut per_state: Vec<Vec<(usize, u16)>> = vec![Vec::new(); n];
+    for j in 0..n {
+        let mut s: u32 = 0x8000;
+        if j == n - 1 && data.len() % n != 0 {
+            for w in data[q * n - 1..].windows(2).rev() {
+                let (f, g) = fg(w[0], w[1]);
+                nx16_step(&mut s, f, g);
+            }
+        }
+        let chunk = &data[j * q..(j + 1) * q];
+        for k in (1..q).rev() {
+            let (f, g) = fg(chunk[k - 1], chunk[k]);
+            if let Some(w) = nx16_step(&mut s, f, g) {
+                per_state[j].push((k, w));
+            }
+        }
+    }
+    // noodles: state n-1 entirely, then n-2, ... ; decoder order: k descending, within k state descending
+    let emitted: Vec<u16> = per_state.iter().rev().flat_map(|v| v.iter().map(|&(_, w)| w)).collect();
+    let mut wanted: Vec<(usize, usize, u16)> = Vec::with_capacity(emitted.len());
+    for (j, v) in per_state.iter().enumerate() {
+        for &(k, w) in v {
+            wanted.push((k, j, w));
+        }
+    }
+    wanted.sort_by(|x, y| (y.0, y.1).cmp(&(x.0, x.1)));
+    if emitted.iter().zip(&wanted).any(|(a, b)| *a != b.2) {
+        return Some("nx16-o1-renorm-order");
+    }
+    None
+}
+
+fn nx16_plain_class(flags: u8, src: &[u8]) -> Option<&'static str> {
+    let mut data = std::borrow::Cow::Borrowed(src);
+    if flags & F_PACK != 0 {
+        if let Some(p) = nx16_bit_pack(&data) {
+            data = std::borrow::Cow::Owned(p);
+        }
+    }
+    if flags & F_RLE != 0 {
+        if let Some(l) = nx16_rle_literals(&data) {
+            data = std::borrow::Cow::Owned(l);
+        }
+    }
+    let n = if flags & F_N32 != 0 { 32 } else { 4 };
+    if data.len() < n || flags & F_CAT != 0 {
+        return None; // stored uncompressed
+    }
+    if flags & F_ORDER == 0 { nx16_order0_class(&data) } else { nx16_order1_class(&data, n) }
+}
+
+/// tag of the known input class (flags, src) belongs to, if any
+pub fn nx16_known_class(flags: u8, src: &[u8]) -> Option<&'static str> {
+    if flags & F_STRIPE != 0 {
+        // every other flag is ignored: four byte-interleaved sub-streams, each order-0 with 4 states
+        // (sub-streams are encoded in order; the first one that panics or hangs decides)
+        let mut first = None;
+        for i in 0..4 {
+            let sub: Vec<u8> = src.iter().skip(i).step_by(4).copied().collect();
+            match nx16_plain_class(0, &sub) {
+                Some("nx16-alphabet-first-symbol-1") => first = first.or(Some("nx16-alphabet-first-symbol-1")),
+                Some(c) => return Some(c), // the encoder panics (or hangs) here
+                None => {}
+            }
+        }
+        return first;
+    }
+    nx16_plain_class(flags, src)
 }
